@@ -536,3 +536,265 @@ func (sp DocSpec) Shrinks() []DocSpec {
 	})
 	return out
 }
+
+// SpecWithFeatures builds a small spec that has exactly the requested features
+// switched on (plus what they imply). ok is false for an unknown feature.
+func SpecWithFeatures(features []string) (DocSpec, bool) {
+	sp := DocSpec{Seed: 12345, Pages: 2, Lines: 3, FontKinds: []int{FontStdWinAnsi}, XRef: []int{0}, TreeDepth: 1}
+	needStream := false
+	for _, f := range features {
+		switch {
+		case f == "eol=crlf":
+			sp.EOL = 1
+		case f == "eol=cr":
+			sp.EOL = 2
+		case f == "ws=tight":
+			sp.Tight = true
+		case f == "ws=loose":
+			sp.Loose = true
+		case f == "comments":
+			sp.Comments = true
+		case f == "hexstrings":
+			sp.HexPct = 100
+		case f == "name-escapes":
+			sp.NameEsc = true
+		case f == "dict-break":
+			sp.DictBreak = true
+		case f == "xref=stream":
+			needStream = true
+		case f == "xref=mixed":
+			needStream = true
+			if sp.Revisions == 0 {
+				sp.Revisions = 1
+				sp.RevOps = []int{4}
+			}
+		case f == "objstm":
+			needStream = true
+			sp.ObjStm = 2
+			sp.ObjStmN = 1
+		case f == "objstm=flate":
+			needStream = true
+			sp.ObjStm = 2
+			sp.ObjStmN = 1
+			sp.ObjStmZ = true
+		case f == "xrefstm=flate":
+			needStream = true
+			sp.XRefZ = 1
+		case f == "xrefstm=predictor":
+			needStream = true
+			sp.XRefZ = 2
+		case f == "xrefstm=wide":
+			needStream = true
+			sp.WidePad = 2
+		case f == "shuffle":
+			sp.Shuffle = true
+		case f == "renumber":
+			sp.Renumber = true
+		case f == "split-xref":
+			sp.SplitXRef = true
+		case f == "len=indirect-before":
+			sp.LenMode = 1
+		case f == "len=indirect-after":
+			sp.LenMode = 2
+		case f == "len=in-objstm":
+			needStream = true
+			sp.ObjStm = 2
+			sp.ObjStmN = 1
+			sp.LenInStm = true
+			if sp.LenMode == 0 {
+				sp.LenMode = 1
+			}
+		case f == "big=4k":
+			sp.BigStream = 1
+		case f == "big=8k":
+			sp.BigStream = 2
+		case len(f) > 7 && f[:7] == "filter=":
+			fmt.Sscanf(f[7:], "%d", &sp.Filter)
+		case len(f) > 10 && f[:10] == "predictor=":
+			sp.Filter = 1
+			fmt.Sscanf(f[10:], "%d", &sp.Predictor)
+		case f == "split-content":
+			sp.Split = 3
+			sp.Lines = 6
+		case f == "contents=array":
+			sp.ContentsArr = true
+		case f == "contents=ref":
+			sp.ContentsRef = true
+			sp.ContentsArr = true
+		case f == "tree=2":
+			sp.TreeDepth = 2
+		case f == "tree=deep":
+			sp.TreeDepth = 3
+		case f == "inherit=parent":
+			sp.InheritAt = 1
+		case f == "inherit=grandparent":
+			if sp.TreeDepth < 2 {
+				sp.TreeDepth = 2
+			}
+			sp.InheritAt = 2
+		case f == "res=indirect":
+			sp.ResIndirect = true
+		case f == "fontparts=indirect":
+			sp.FontPartsIndirect = true
+		case f == "rotate":
+			sp.Rotate = 90
+		case f == "kids=ref":
+			sp.KidsRef = true
+		case f == "textops=TJ":
+			sp.TextOps = 1
+		case f == "textops=mixed":
+			sp.TextOps = 2
+		case f == "form-xobject":
+			sp.FormXObj = true
+			sp.Lines = 4
+		case f == "revisions":
+			if sp.Revisions == 0 {
+				sp.Revisions = 1
+				sp.RevOps = []int{4}
+			}
+		case len(f) > 6 && f[:6] == "revop=":
+			op := 0
+			fmt.Sscanf(f[6:], "%d", &op)
+			if sp.Revisions == 1 && len(sp.RevOps) == 1 && sp.RevOps[0] == 4 && op != 4 {
+				sp.RevOps[0] = op
+			} else if op != 4 || sp.Revisions == 0 {
+				sp.Revisions++
+				sp.RevOps = append(sp.RevOps, op)
+			}
+		case len(f) > 5 && f[:5] == "font=":
+			found := false
+			for k, n := range FontKindNames {
+				if n == f[5:] {
+					sp.FontKinds = []int{k}
+					found = true
+				}
+			}
+			if !found {
+				return sp, false
+			}
+		case f == "pages>1":
+			sp.Pages = 2
+		default:
+			return sp, false
+		}
+	}
+	sp.XRef = make([]int, 1+sp.Revisions)
+	if needStream {
+		mixed := false
+		for _, f := range features {
+			if f == "xref=mixed" {
+				mixed = true
+			}
+		}
+		for i := range sp.XRef {
+			if !mixed || i > 0 {
+				sp.XRef[i] = 1
+			}
+		}
+	}
+	return sp, true
+}
+
+// Without returns the spec with the dimension behind feature f reset to its default.
+func (sp DocSpec) Without(f string) DocSpec {
+	c := sp
+	c.FontKinds = append([]int{}, sp.FontKinds...)
+	c.XRef = append([]int{}, sp.XRef...)
+	c.RevOps = append([]int{}, sp.RevOps...)
+	switch {
+	case f == "eol=crlf", f == "eol=cr":
+		c.EOL = 0
+	case f == "ws=tight":
+		c.Tight = false
+	case f == "ws=loose":
+		c.Loose = false
+	case f == "comments":
+		c.Comments = false
+	case f == "hexstrings":
+		c.HexPct = 0
+	case f == "name-escapes":
+		c.NameEsc = false
+	case f == "dict-break":
+		c.DictBreak = false
+	case f == "xref=stream":
+		for i := range c.XRef {
+			c.XRef[i] = 0
+		}
+	case f == "xref=mixed":
+		for i := range c.XRef {
+			c.XRef[i] = 1
+		}
+	case f == "objstm", f == "objstm=flate":
+		c.ObjStm = 0
+		c.ObjStmZ = false
+	case f == "xrefstm=flate", f == "xrefstm=predictor":
+		c.XRefZ = 0
+	case f == "xrefstm=wide":
+		c.WidePad = 0
+	case f == "shuffle":
+		c.Shuffle = false
+	case f == "renumber":
+		c.Renumber = false
+	case f == "split-xref":
+		c.SplitXRef = false
+	case f == "len=indirect-before", f == "len=indirect-after":
+		c.LenMode = 0
+	case f == "len=in-objstm":
+		c.LenInStm = false
+	case f == "big=4k", f == "big=8k":
+		c.BigStream = 0
+	case len(f) > 7 && f[:7] == "filter=":
+		c.Filter, c.Predictor = 0, 0
+	case len(f) > 10 && f[:10] == "predictor=":
+		c.Predictor = 0
+	case f == "split-content":
+		c.Split = 0
+	case f == "contents=array":
+		c.ContentsArr = false
+	case f == "contents=ref":
+		c.ContentsRef = false
+	case f == "tree=2", f == "tree=deep":
+		c.TreeDepth = 1
+		if c.InheritAt > 1 {
+			c.InheritAt = 1
+		}
+	case f == "inherit=parent", f == "inherit=grandparent":
+		c.InheritAt = 0
+	case f == "res=indirect":
+		c.ResIndirect = false
+	case f == "fontparts=indirect":
+		c.FontPartsIndirect = false
+	case f == "rotate":
+		c.Rotate = 0
+	case f == "kids=ref":
+		c.KidsRef = false
+	case f == "textops=TJ", f == "textops=mixed":
+		c.TextOps = 0
+	case f == "form-xobject":
+		c.FormXObj = false
+	case f == "revisions":
+		c.Revisions = 0
+		c.RevOps = nil
+		c.XRef = c.XRef[:1]
+	case len(f) > 6 && f[:6] == "revop=":
+		op := 0
+		fmt.Sscanf(f[6:], "%d", &op)
+		for i := range c.RevOps {
+			if c.RevOps[i] == op {
+				c.RevOps[i] = 4
+				if op == 4 {
+					c.RevOps[i] = 0
+				}
+			}
+		}
+	case len(f) > 5 && f[:5] == "font=":
+		for i, k := range c.FontKinds {
+			if FontKindNames[k] == f[5:] {
+				c.FontKinds[i] = FontStdWinAnsi
+			}
+		}
+	case f == "pages>1":
+		c.Pages = 1
+	}
+	return c
+}
